@@ -43,6 +43,7 @@ CONSTANTS
   \* ---- part "rc"
   Resources,   \* resources the client has created before the workload
   MaxLoss,     \* connection losses per behaviour
+  MaxAnnFail,  \* re-announcements per new connection that the transport fails (the client sees a write error)
   Bystanders,  \* subset of BOOLEAN: is there a second, healthy connection to another coordinator
   Shifts       \* generation only: extra requests sent before the first loss (moves round-robin's phase)
 
@@ -76,7 +77,9 @@ NoXid  == [form |-> "none", addr |-> NoAddr]
 NoSel  == [r |-> Nil, res |-> "none", xid |-> NoXid, live |-> {}, target |-> {}]
 
 SessIdx == 0..(MaxLoss + 1)
-NoAnn   == [tm |-> FALSE, rm |-> {}]
+\* fail: resources whose re-announcement on this session was attempted and failed in the transport
+NoAnn   == [tm |-> FALSE, rm |-> {}, fail |-> {}]
+Ann(a)  == [tm |-> a.tm, rm |-> a.rm, fail |-> {}]
 
 \* the sessions a request may be written to
 Live(s) == {i \in Ids : s[i].reg /\ s[i].open}
@@ -95,7 +98,7 @@ SelInit(p, s) ==
 \* the first connection carries the announcements a0 (the TM on open, each resource at its creation)
 RcInit(r, b, a0, ab) ==
   /\ part = "rc" /\ by = b /\ cur = 1 /\ nsess = 1 /\ reg = r
-  /\ ann = [s \in SessIdx |-> IF s = 1 THEN a0 ELSE IF s = 0 /\ b THEN ab ELSE NoAnn]
+  /\ ann = [s \in SessIdx |-> IF s = 1 THEN Ann(a0) ELSE IF s = 0 /\ b THEN Ann(ab) ELSE NoAnn]
   /\ branches = {} /\ settled = FALSE /\ losses = 0 /\ done = {} /\ begins = {} /\ p2s = {}
   /\ AIdle
 
@@ -218,6 +221,14 @@ AnnounceRM(s, r) ==
   /\ ann' = [ann EXCEPT ![s].rm = @ \cup {r}]
   /\ UNCHANGED <<by, cur, nsess, reg, branches, settled, losses, done, begins, p2s>>
 
+\* the client tried to announce resource r on session s and the transport failed the request (a write error,
+\* a time-out): the coordinator saw nothing.  The client is not asked to try again - but it goes on with the
+\* other resources.
+AnnounceFailed(s, r) ==
+  /\ BStep /\ s \in SessIdx
+  /\ ann' = [ann EXCEPT ![s].fail = @ \cup {r}]
+  /\ UNCHANGED <<by, cur, nsess, reg, branches, settled, losses, done, begins, p2s>>
+
 \* the grace period the coordinator grants a new connection is over
 Settle ==
   /\ BStep /\ cur # 0 /\ losses > 0 /\ ~settled
@@ -234,7 +245,8 @@ BeginAfter(ok) ==
 \* had a connection to send it over; answered: the client answered it
 Phase2(r, reached, answered) ==
   /\ BStep /\ settled /\ cur # 0 /\ r \in branches
-  /\ p2s' = p2s \cup {[reached |-> reached, answered |-> answered]}
+  \* a resource whose announcement the transport failed is not expected to be reachable
+  /\ p2s' = p2s \cup {[reached |-> reached \/ r \in ann[cur].fail, answered |-> answered \/ r \in ann[cur].fail]}
   /\ branches' = branches \ {r}
   /\ UNCHANGED <<by, cur, nsess, reg, ann, settled, losses, done, begins>>
 
@@ -242,8 +254,9 @@ Phase2(r, reached, answered) ==
 DAnnounce ==
   /\ cur # 0 /\ losses > 0 /\ ~settled
   /\ \/ ~ann[cur].tm /\ AnnounceTM(cur)
-     \/ \E r \in reg \ ann[cur].rm : AnnounceRM(cur, r)
-DSettle == Settle /\ ann[cur].tm /\ reg \subseteq ann[cur].rm
+     \/ \E r \in reg \ (ann[cur].rm \cup ann[cur].fail) :
+          AnnounceRM(cur, r) \/ (Cardinality(ann[cur].fail) < MaxAnnFail /\ AnnounceFailed(cur, r))
+DSettle == Settle /\ ann[cur].tm /\ reg \subseteq ann[cur].rm \cup ann[cur].fail
 \* the coordinator accepts a begin only on a connection that announced a transaction manager and routes
 \* phase two only over a connection that announced the resource
 DBegin  == BeginAfter(ann[cur].tm)
@@ -257,8 +270,10 @@ GLoseC   == Lose /\ env' = Append(env, [op |-> "lose"])
 GReopen  ==
   /\ BStep /\ cur = 0
   /\ nsess' = nsess + 1 /\ cur' = nsess + 1
-  /\ ann' = [ann EXCEPT ![nsess + 1] = [tm |-> TRUE, rm |-> reg]]
-  /\ env' = Append(env, [op |-> "reopen"])
+  /\ \E f \in SUBSET reg :
+       /\ Cardinality(f) <= MaxAnnFail
+       /\ ann' = [ann EXCEPT ![nsess + 1] = [tm |-> TRUE, rm |-> reg \ f, fail |-> f]]
+       /\ env' = Append(env, [op |-> "reopen", failann |-> f])
   /\ UNCHANGED <<by, reg, branches, settled, losses, done, begins, p2s>>
 GSettle  == DSettle /\ env' = Append(env, [op |-> "settle"])
 
@@ -291,7 +306,7 @@ NoCrash == last.res # "panic"
 
 \* after the grace period the new connection carries the announcements
 ReannounceTM == (part = "rc" /\ settled /\ cur # 0) => ann[cur].tm
-ReannounceRM == (part = "rc" /\ settled /\ cur # 0) => reg \subseteq ann[cur].rm
+ReannounceRM == (part = "rc" /\ settled /\ cur # 0) => reg \subseteq ann[cur].rm \cup ann[cur].fail
 BeginWorks    == FALSE \notin begins
 Phase2Reaches == \A p \in p2s : p.reached /\ p.answered
 
